@@ -107,8 +107,12 @@ func pairMatrix(owner string, thorough bool) []*engine.SScenario {
 			// teardowns are long operations: the quick tier explores these pairs up to one deviation
 			// (not the removals racing the reader of the same connection: those need two deviations — the message has
 			// to pass the entry of message handling before the removal starts, and the removal has to be interrupted)
-			teardown := opKind(a) == "disc" || opKind(b) == "disc" || opKind(a) == "entrm" || opKind(b) == "entrm"
-			sc.Heavy = teardown && !same
+			// (announcements and teardowns are long operations: the quick tier explores their pairs up to one deviation)
+			long := false
+			for _, k := range []string{"disc", "entrm", "entadd"} {
+				long = long || opKind(a) == k || opKind(b) == k
+			}
+			sc.Heavy = long && !(same && (opKind(a) == "disc" || opKind(b) == "disc") && opKind(a) != "entadd" && opKind(b) != "entadd")
 			scs = append(scs, sc)
 		}
 	}
